@@ -61,6 +61,7 @@ def _is(name):
 
 
 CHECK_RANGE = ('check_range(contract + recorded length)', _is('check_range_doesnt_cross_app_sbx_boundary'),
+               '__CPROVER_requires(g_noabort ==> ((uintptr_t)$0 != 0 && $1 >= 1 && MI((uintptr_t)$0) + MI($1) - 1 < (MI(1) << 64) && V_WHICH((uintptr_t)$0) == V_WHICH((uintptr_t)$0 + $1 - 1))) /*@a_valid_request_is_not_refused*/\n'
                '__CPROVER_ensures((uintptr_t)$0 != 0 && V_WHICH((uintptr_t)$0) == V_WHICH((uintptr_t)$0 + $1 - 1) && ($1 >= 1 ==> MI((uintptr_t)$0) + MI($1) - 1 < (MI(1) << 64)))\n'
                '__CPROVER_ensures(g_checked_bytes == $1 && g_checked_start == (uintptr_t)$0)\n__CPROVER_assigns(g_checked_bytes, g_checked_start)')
 
@@ -196,6 +197,12 @@ def string_inst(kind, recv, tier):
           ('one_strlen_at_most', '__CPROVER_ensures(g_strlens <= 1)'),
           ('frame', '__CPROVER_assigns(g_vcalls, g_new_bytes, g_news, g_new_ptr, g_checked_bytes, g_checked_start, g_strlens)')]
     h = MEM + recv_decl + '  struct S_%s vf; unsigned long in_strlen; g_strlen_ret = in_strlen;\n' % V
+    if recv == 'tainted':
+        # no-abort direction (C10: a request whose range lies inside the sandbox is carried out): a string whose terminator is still
+        # inside sandbox memory - in particular on its last byte - is delivered, not refused
+        D = '((uintptr_t)((const struct %s *)$this)->data)' % TT
+        cl.insert(2, ('noabort_pre', '__CPROVER_requires(g_noabort ==> (%s == 0 || MI(%s) + MI(g_strlen_ret) + 1 <= MI(V_BASE[0]) + MI(V_SIZE[0])))' % (D, D)))
+        h += '  _Bool in_noabort; g_noabort = in_noabort;\n'
     h += '  int r = $ROOT((void *)%s, vf);\n' % ('&p' if recv == 'tainted' else 'pp')
     lcs = {('copy_and_verify_range_helper', 0): '__CPROVER_assigns($LV, __CPROVER_object_whole(g_new_ptr))\n__CPROVER_loop_invariant($LV <= $0)\n__CPROVER_decreases($0 - $LV)'}
     if kind == 'uptr':
